@@ -117,14 +117,14 @@ pub fn run(ctx: &mut Ctx) {
     ctx.extra.insert("exhaustive".into(), json!(true));
     ctx.extra.insert("exhaustive_domain".into(), json!("ordered pairs of the leaf alphabet x 16 option sets (model-compared); unordered triples x 6 orders (thorough: all; quick: a third)"));
     // shape clashes: every ordered pair (and every triple with a leading None) over an alphabet of SHAPES at one position -
-    // scalar, string, unit, None, empty / non-empty sequence, tuple, struct, empty / non-empty map, unit / newtype variant -
+    // scalar, string, unit, None, empty / non-empty sequence, tuples of three different lengths, struct, empty / non-empty map, unit / newtype variant -
     // under both settings of map_as_struct: most pairs cannot be merged, and which ones can must not depend on the order
     // (each ensure_* transition upgrades exactly from Unknown / a null-only primitive)
     {
         use crate::arrgen::IK;
         let shapes: Vec<Val> = vec![
             Val::Int(IK::I32, 7), Val::Str("x".into()), Val::Bool(true), Val::Unit, Val::None, Val::Some(Box::new(Val::Int(IK::I32, 1))),
-            Val::Seq(vec![]), Val::Seq(vec![Val::Int(IK::I32, 1)]), Val::Tuple(vec![Val::Int(IK::I32, 1), Val::Bool(false)]),
+            Val::Seq(vec![]), Val::Seq(vec![Val::Int(IK::I32, 1)]), Val::Tuple(vec![Val::Int(IK::I32, 1), Val::Bool(false)]), Val::Tuple(vec![Val::Int(IK::I32, 1)]), Val::TupleStruct(vec![Val::Int(IK::I32, 1), Val::Bool(true), Val::None]),
             Val::Struct(vec![("x".to_string(), Val::Int(IK::I32, 1))], 0),
             Val::Map(vec![]), Val::Map(vec![(Val::Str("x".into()), Val::Int(IK::I32, 1))]), Val::Map(vec![(Val::Int(IK::I32, 3), Val::Bool(true))]),
             Val::UnitVariant(0, "A".into()), Val::NewtypeVariant(1, "B".into(), Box::new(Val::Int(IK::I32, 1))),
